@@ -95,6 +95,9 @@ structure Inv (c : Cfg) (fl : Flavour) (s : St C) : Prop where
   pathKeysHead : fl.oip = true → ∀ (k : Str) (h : Nat), dget s.dict k = some h → k.head? = some '/'
   idKeyOid : fl.oip = false → ∀ (k : Str) (h : Nat) (o : Obj C), k.head? ≠ some '/' → dget s.dict k = some h →
               s.heap[h]? = some o → o.oid = k
+  idAll   : fl.oip = false → ∀ (h : Nat) (o : Obj C), s.heap[h]? = some o → ∃ n, n < s.nextId ∧ o.oid = (toString n).toList
+  oidUnique : fl.oip = false → ∀ (h h' : Nat) (o o' : Obj C), s.heap[h]? = some o → s.heap[h']? = some o' →
+              o.oid = o'.oid → h = h'
 
 /-- simulation relation: the live part of the path view is the tree -/
 structure Rel (c : Cfg) (s : St C) (t : Tree.T C) : Prop where
